@@ -191,6 +191,14 @@ static Case gen_case() {
   c.cfg.by_path = false;
   c.cfg.null_opts = false;
   c.entries = gen_table(c.cfg.eff_block_size(), 3 + current_size() / 3, false);
+  if (!c.entries.empty() && chance(15)) {
+    // one value of 64 KiB and more, incompressible: that block's payload is larger than any staging buffer a writer might keep
+    SEntry &e = c.entries[(size_t)pick(0, (int)c.entries.size() - 1)];
+    e.v = BStr();
+    e.v.glen = (uint32_t)one_of<int>({65536, 70000, 100000, 200000});
+    e.v.gkind = 0;
+    e.v.gseed = pick_u32();
+  }
   int nf = weighted({35, 30, 20, 15}) + 1;
   long approx_calls = 4 + 3 * (long)(c.entries.size() / 3 + 1);
   bool hard = chance(20);
